@@ -141,8 +141,7 @@ Base(t) == Leaf(t, 10, FALSE, 0, "f")
 
 Scenarios ==
   CASE Family = "c12-quick" ->
-         {PairScenario(Base("tt"), 1), PairScenario(Base("wt"), 3), PairScenario(Base("ed"), 4),
-          AliasScenario("dy")}
+         {PairScenario(Base("tt"), 1), PairScenario(Base("wt"), 3), AliasScenario("dy")}
     [] Family = "c12-full" ->
          {PairScenario(Base(t), v) : t \in TputTypes \cup DynTypes, v \in {1, 2, 4}}
          \cup {PairScenario(Base(t), 3) : t \in TputTypes}
